@@ -1,55 +1,96 @@
 // ---- spec side of ELSCOPE (C05): which scope stack each binding value / child is resolved against ----
 /// a binding value was resolved against exactly the stack `sc` (static values have nothing to resolve)
-spec fn val_ok(v: Value, sc: Seq<Seq<char>>) -> bool {
+/// `dis` (C07): the value sits where the binding map cannot reach (structural position or inside a dynamic subtree):
+/// then it gets NO binding-map keys (its fields were disabled instead); otherwise it gets its keys
+spec fn val_ok(v: Value, sc: Seq<Seq<char>>, dis: bool) -> bool {
     match v {
-        Value::Dynamic { expression, .. } => expression.resolved@ == Some(sc),
+        Value::Dynamic { expression, binding_map_keys, .. } => expression.resolved@ == Some(sc) && binding_map_keys.is_some() == !dis,
         Value::Static { .. } => true,
     }
 }
-spec fn oval_ok(v: Option<Value>, sc: Seq<Seq<char>>) -> bool {
-    match v { Some(x) => val_ok(x, sc), None => true }
+/// as the parser leaves a value: no binding-map keys yet
+spec fn val_fresh(v: Value) -> bool {
+    match v { Value::Dynamic { binding_map_keys, .. } => binding_map_keys is None, Value::Static { .. } => true }
 }
-spec fn pval_ok(v: Option<(Range<Position>, Value)>, sc: Seq<Seq<char>>) -> bool {
-    match v { Some(x) => val_ok(x.1, sc), None => true }
+spec fn oval_ok(v: Option<Value>, sc: Seq<Seq<char>>, dis: bool) -> bool {
+    match v { Some(x) => val_ok(x, sc, dis), None => true }
 }
-spec fn attrs_ok(s: Seq<Attribute>, sc: Seq<Seq<char>>) -> bool {
-    forall|i: int| 0 <= i < s.len() ==> oval_ok(#[trigger] s[i].value, sc)
+spec fn pval_ok(v: Option<(Range<Position>, Value)>, sc: Seq<Seq<char>>, dis: bool) -> bool {
+    match v { Some(x) => val_ok(x.1, sc, dis), None => true }
 }
-spec fn nattrs_ok(s: Seq<NormalAttribute>, sc: Seq<Seq<char>>) -> bool {
-    forall|i: int| 0 <= i < s.len() ==> oval_ok(#[trigger] s[i].value, sc)
+spec fn oval_fresh(v: Option<Value>) -> bool { match v { Some(x) => val_fresh(x), None => true } }
+spec fn pval_fresh(v: Option<(Range<Position>, Value)>) -> bool { match v { Some(x) => val_fresh(x.1), None => true } }
+spec fn attrs_ok(s: Seq<Attribute>, sc: Seq<Seq<char>>, dis: bool) -> bool {
+    forall|i: int| 0 <= i < s.len() ==> oval_ok(#[trigger] s[i].value, sc, dis)
 }
-spec fn evs_ok(s: Seq<EventBinding>, sc: Seq<Seq<char>>) -> bool {
-    forall|i: int| 0 <= i < s.len() ==> oval_ok(#[trigger] s[i].value, sc)
+spec fn attrs_fresh(s: Seq<Attribute>) -> bool {
+    forall|i: int| 0 <= i < s.len() ==> oval_fresh(#[trigger] s[i].value)
 }
-spec fn common_ok(c: CommonElementAttributes, sc: Seq<Seq<char>>) -> bool {
-    &&& pval_ok(c.id, sc)
-    &&& pval_ok(c.slot, sc)
-    &&& evs_ok(c.event_bindings@, sc)
-    &&& attrs_ok(c.data@, sc)
-    &&& attrs_ok(c.marks@, sc)
+spec fn nattrs_ok(s: Seq<NormalAttribute>, sc: Seq<Seq<char>>, dis: bool) -> bool {
+    forall|i: int| 0 <= i < s.len() ==> oval_ok(#[trigger] s[i].value, sc, dis)
 }
-spec fn class_ok(c: ClassAttribute, sc: Seq<Seq<char>>) -> bool {
-    match c { ClassAttribute::String(_, v) => val_ok(v, sc), _ => true }
+spec fn nattrs_fresh(s: Seq<NormalAttribute>) -> bool {
+    forall|i: int| 0 <= i < s.len() ==> oval_fresh(#[trigger] s[i].value)
 }
-spec fn style_ok(c: StyleAttribute, sc: Seq<Seq<char>>) -> bool {
-    match c { StyleAttribute::String(_, v) => val_ok(v, sc), _ => true }
+spec fn evs_ok(s: Seq<EventBinding>, sc: Seq<Seq<char>>, dis: bool) -> bool {
+    forall|i: int| 0 <= i < s.len() ==> oval_ok(#[trigger] s[i].value, sc, dis)
 }
+spec fn evs_fresh(s: Seq<EventBinding>) -> bool {
+    forall|i: int| 0 <= i < s.len() ==> oval_fresh(#[trigger] s[i].value)
+}
+spec fn common_ok(c: CommonElementAttributes, sc: Seq<Seq<char>>, dis: bool) -> bool {
+    &&& pval_ok(c.id, sc, dis)
+    &&& pval_ok(c.slot, sc, dis)
+    &&& evs_ok(c.event_bindings@, sc, dis)
+    &&& attrs_ok(c.data@, sc, dis)
+    &&& attrs_ok(c.marks@, sc, dis)
+}
+spec fn common_fresh(c: CommonElementAttributes) -> bool {
+    pval_fresh(c.id) && pval_fresh(c.slot) && evs_fresh(c.event_bindings@) && attrs_fresh(c.data@) && attrs_fresh(c.marks@)
+}
+spec fn class_ok(c: ClassAttribute, sc: Seq<Seq<char>>, dis: bool) -> bool {
+    match c { ClassAttribute::String(_, v) => val_ok(v, sc, dis), _ => true }
+}
+spec fn style_ok(c: StyleAttribute, sc: Seq<Seq<char>>, dis: bool) -> bool {
+    match c { StyleAttribute::String(_, v) => val_ok(v, sc, dis), _ => true }
+}
+spec fn class_fresh(c: ClassAttribute) -> bool { match c { ClassAttribute::String(_, v) => val_fresh(v), _ => true } }
+spec fn style_fresh(c: StyleAttribute) -> bool { match c { StyleAttribute::String(_, v) => val_fresh(v), _ => true } }
 spec fn branch_vals_ok(s: Seq<(Range<Position>, Value, Vec<Node>)>, sc: Seq<Seq<char>>) -> bool {
-    forall|i: int| 0 <= i < s.len() ==> val_ok((#[trigger] s[i]).1, sc)
+    forall|i: int| 0 <= i < s.len() ==> val_ok((#[trigger] s[i]).1, sc, true)
 }
-/// every binding value that belongs to the element itself (not to its children)
-spec fn values_ok(k: ElementKind, sc: Seq<Seq<char>>) -> bool {
+spec fn branch_vals_fresh(s: Seq<(Range<Position>, Value, Vec<Node>)>) -> bool {
+    forall|i: int| 0 <= i < s.len() ==> val_fresh((#[trigger] s[i]).1)
+}
+/// every binding value that belongs to the element itself (not to its children).  `dis`: the element is inside a
+/// dynamic subtree.  Structural values (the slot of a <block>, the wx:for list, wx:if conditions, template is/data,
+/// slot name and slot values) are out of the binding map's reach wherever they occur.
+spec fn values_ok(k: ElementKind, sc: Seq<Seq<char>>, dis: bool) -> bool {
     match k {
         ElementKind::Normal { attributes, class, style, change_attributes, common, .. } =>
-            nattrs_ok(attributes@, sc) && class_ok(class, sc) && style_ok(style, sc) && attrs_ok(change_attributes@, sc) && common_ok(common, sc),
-        ElementKind::Pure { slot, .. } => pval_ok(slot, sc),
-        ElementKind::For { list, .. } => val_ok(list.1, sc),
+            nattrs_ok(attributes@, sc, dis) && class_ok(class, sc, dis) && style_ok(style, sc, dis) && attrs_ok(change_attributes@, sc, dis) && common_ok(common, sc, dis),
+        ElementKind::Pure { slot, .. } => pval_ok(slot, sc, true),
+        ElementKind::For { list, .. } => val_ok(list.1, sc, true),
         ElementKind::If { branches, .. } => branch_vals_ok(branches@, sc),
-        ElementKind::TemplateRef { target, data } => val_ok(target.1, sc) && val_ok(data.1, sc),
-        ElementKind::Slot { name, values, common } => val_ok(name.1, sc) && attrs_ok(values@, sc) && common_ok(common, sc),
+        ElementKind::TemplateRef { target, data } => val_ok(target.1, sc, true) && val_ok(data.1, sc, true),
+        ElementKind::Slot { name, values, common } => val_ok(name.1, sc, true) && attrs_ok(values@, sc, true) && common_ok(common, sc, dis),
         ElementKind::Include { .. } => true,
     }
 }
+spec fn values_fresh(k: ElementKind) -> bool {
+    match k {
+        ElementKind::Normal { attributes, class, style, change_attributes, common, .. } =>
+            nattrs_fresh(attributes@) && class_fresh(class) && style_fresh(style) && attrs_fresh(change_attributes@) && common_fresh(common),
+        ElementKind::Pure { slot, .. } => pval_fresh(slot),
+        ElementKind::For { list, .. } => val_fresh(list.1),
+        ElementKind::If { branches, .. } => branch_vals_fresh(branches@),
+        ElementKind::TemplateRef { target, data } => val_fresh(target.1) && val_fresh(data.1),
+        ElementKind::Slot { name, values, common } => val_fresh(name.1) && attrs_fresh(values@) && common_fresh(common),
+        ElementKind::Include { .. } => true,
+    }
+}
+/// wx:for, wx:if, template-is, include and slot start a subtree the binding map cannot reach
+spec fn self_dynamic(k: ElementKind) -> bool { !(k is Normal || k is Pure) }
 spec fn sv_names(s: Seq<StaticAttribute>) -> Seq<Seq<char>> {
     Seq::new(s.len(), |i: int| s[i].value.name@)
 }
@@ -65,36 +106,64 @@ spec fn slot_names(k: ElementKind) -> Seq<Seq<char>> {
 /// THE scoping contract (property C05): the element's own values see the enclosing stack plus its slot values; the
 /// children of a wx:for additionally see item, then index (the list expression does not); every other child sees
 /// what the element's values see; nothing an element pushes survives it (siblings get the same `sc`).
-spec fn node_ok(n: Node, sc: Seq<Seq<char>>) -> bool
+spec fn node_ok(n: Node, sc: Seq<Seq<char>>, dis: bool) -> bool
     decreases n,
 {
     match n {
-        Node::Text(v) => val_ok(v, sc),
-        Node::Element(e) => el_ok(e, sc),
+        Node::Text(v) => val_ok(v, sc, dis),
+        Node::Element(e) => el_ok(e, sc, dis),
         _ => true,
     }
 }
-spec fn el_ok(e: Element, sc: Seq<Seq<char>>) -> bool
+spec fn el_ok(e: Element, sc: Seq<Seq<char>>, dis: bool) -> bool
     decreases e,
 {
     let sc1 = sc + slot_names(e.kind);
-    values_ok(e.kind, sc1) && match e.kind {
-        ElementKind::Normal { children, .. } => nodes_ok(children@, sc1),
-        ElementKind::Pure { children, .. } => nodes_ok(children@, sc1),
-        ElementKind::For { children, item_name, index_name, .. } => nodes_ok(children@, sc1.push(item_name.1.name@).push(index_name.1.name@)),
-        ElementKind::If { branches, else_branch } => branches_ok(branches@, sc1) && (match else_branch { Some(x) => nodes_ok(x.1@, sc1), None => true }),
+    let d1 = dis || self_dynamic(e.kind);
+    values_ok(e.kind, sc1, d1) && match e.kind {
+        ElementKind::Normal { children, .. } => nodes_ok(children@, sc1, d1),
+        ElementKind::Pure { children, .. } => nodes_ok(children@, sc1, d1),
+        ElementKind::For { children, item_name, index_name, .. } => nodes_ok(children@, sc1.push(item_name.1.name@).push(index_name.1.name@), d1),
+        ElementKind::If { branches, else_branch } => branches_ok(branches@, sc1, d1) && (match else_branch { Some(x) => nodes_ok(x.1@, sc1, d1), None => true }),
         _ => true,
     }
 }
-spec fn nodes_ok(s: Seq<Node>, sc: Seq<Seq<char>>) -> bool
+spec fn nodes_ok(s: Seq<Node>, sc: Seq<Seq<char>>, dis: bool) -> bool
     decreases s,
 {
-    forall|i: int| 0 <= i < s.len() ==> node_ok(#[trigger] s[i], sc)
+    forall|i: int| 0 <= i < s.len() ==> node_ok(#[trigger] s[i], sc, dis)
 }
-spec fn branches_ok(s: Seq<(Range<Position>, Value, Vec<Node>)>, sc: Seq<Seq<char>>) -> bool
+spec fn branches_ok(s: Seq<(Range<Position>, Value, Vec<Node>)>, sc: Seq<Seq<char>>, dis: bool) -> bool
     decreases s,
 {
-    forall|i: int| 0 <= i < s.len() ==> nodes_ok((#[trigger] s[i]).2@, sc)
+    forall|i: int| 0 <= i < s.len() ==> nodes_ok((#[trigger] s[i]).2@, sc, dis)
+}
+/// the tree as the parser leaves it: no value has binding-map keys yet
+spec fn node_fresh(n: Node) -> bool
+    decreases n,
+{
+    match n { Node::Text(v) => val_fresh(v), Node::Element(e) => el_fresh(e), _ => true }
+}
+spec fn el_fresh(e: Element) -> bool
+    decreases e,
+{
+    values_fresh(e.kind) && match e.kind {
+        ElementKind::Normal { children, .. } => nodes_fresh(children@),
+        ElementKind::Pure { children, .. } => nodes_fresh(children@),
+        ElementKind::For { children, .. } => nodes_fresh(children@),
+        ElementKind::If { branches, else_branch } => branches_fresh(branches@) && (match else_branch { Some(x) => nodes_fresh(x.1@), None => true }),
+        _ => true,
+    }
+}
+spec fn nodes_fresh(s: Seq<Node>) -> bool
+    decreases s,
+{
+    forall|i: int| 0 <= i < s.len() ==> node_fresh(#[trigger] s[i])
+}
+spec fn branches_fresh(s: Seq<(Range<Position>, Value, Vec<Node>)>) -> bool
+    decreases s,
+{
+    forall|i: int| 0 <= i < s.len() ==> nodes_fresh((#[trigger] s[i]).2@)
 }
 /// what every function of the analysis leaves alone
 spec fn sas_frame(new: &ScopeAnalyzeState, old: &ScopeAnalyzeState) -> bool {
@@ -169,11 +238,12 @@ proof fn lemma_bdepth(s: Seq<(Range<Position>, Value, Vec<Node>)>, k: int, j: in
     if j < k - 1 { lemma_bdepth(s, k - 1, j); }
 }
 /// state of a children loop: the first i children are done, the others are untouched
-spec fn kids_inv(cur: Seq<Node>, orig: Seq<Node>, i: int, sc: Seq<Seq<char>>) -> bool {
+spec fn kids_inv(cur: Seq<Node>, orig: Seq<Node>, i: int, sc: Seq<Seq<char>>, dis: bool) -> bool {
     &&& cur.len() == orig.len()
     &&& 0 <= i <= cur.len()
-    &&& forall|j: int| 0 <= j < i ==> node_ok(#[trigger] cur[j], sc)
+    &&& forall|j: int| 0 <= j < i ==> node_ok(#[trigger] cur[j], sc, dis)
     &&& forall|j: int| i <= j < cur.len() ==> #[trigger] cur[j] == orig[j]
+    &&& nodes_fresh(orig)
 }
 proof fn lemma_names_push(s: Seq<(CompactString, Range<Position>)>, x: (CompactString, Range<Position>))
     ensures names(s.push(x)) =~= names(s).push(x.0@),
